@@ -666,7 +666,10 @@ def handleAcc (t : TextTable) (form da ka db kb same obs : String) : Option Line
   let orc : Outcome :=
     match f with
     | .add | .sub | .adda | .suba =>
-      if differ && !isTemp && o then .prop s!"acc.{form}.oracle" "additive arithmetic between different dimensions/kinds compiles"
+      -- the only cross-kind forms: point ± interval, point ±= interval (result: point) and interval + point
+      let allowed := (A == e.tt && B == e.ti) || (f == .add && A == e.ti && B == e.tt)
+      if differ && isTemp && !allowed && o then .prop s!"acc.{form}.oracle" "temperature arithmetic other than point ± interval / interval + point compiles (interval − point, interval ±= point)"
+      else if differ && !isTemp && o then .prop s!"acc.{form}.oracle" "additive arithmetic between different dimensions/kinds compiles"
       else if A == e.tt && B == e.tt && o then .prop s!"acc.{form}.oracle" "two temperature points can be added/subtracted"
       else .ok
     | .rem | .rema | .eq | .lt | .pcmp | .ordmax | .letbind | .hypot | .atan2 =>
